@@ -35,6 +35,14 @@ import (
 // RunUDPAssociateLoop exchanges socks5 UDP packets between a socks5 proxy client and a mieru proxy server,
 // the proxy server is connected via the PacketOverStreamTunnel.
 func RunUDPAssociateLoop(udpConn *net.UDPConn, conn *apicommon.PacketOverStreamTunnel, resolver apicommon.DNSResolver) error {
+	return runUDPAssociateLoop(udpConn, conn, resolver, nil)
+}
+
+// udpDestinationFilter returns false if a UDP packet should not be relayed
+// to the destination in its UDP associate header.
+type udpDestinationFilter func(dst model.AddrSpec) bool
+
+func runUDPAssociateLoop(udpConn *net.UDPConn, conn *apicommon.PacketOverStreamTunnel, resolver apicommon.DNSResolver, allow udpDestinationFilter) error {
 	var udpErr atomic.Value
 
 	// addrMap maps the UDPAddr in string to the bytes in UDP associate header.
@@ -62,6 +70,11 @@ func RunUDPAssociateLoop(udpConn *net.UDPConn, conn *apicommon.PacketOverStreamT
 				udpErr.Store(err)
 				UDPAssociateErrors.Add(1)
 				return
+			}
+			if allow != nil && !allow(datagram.Addr) {
+				log.Debugf("UDP associate %v dropped packet to %v rejected by egress rules", udpConn.LocalAddr(), datagram.Addr)
+				RejectByRules.Add(1)
+				continue
 			}
 			dstAddr, err := resolveSocks5UDPAddr(context.Background(), resolver, datagram.Addr)
 			if err != nil {
@@ -211,7 +224,7 @@ func RunUDPForwardingLoop(udpConn *net.UDPConn, conn *apicommon.PacketOverStream
 // runUDPAssociateDatagramLoop exchanges RFC 1928 SOCKS5 UDP datagrams between
 // a SOCKS5 proxy client and UDP destinations until the TCP control connection
 // is closed.
-func runUDPAssociateDatagramLoop(udpConn *net.UDPConn, ctrlConn net.Conn, resolver apicommon.DNSResolver) error {
+func runUDPAssociateDatagramLoop(udpConn *net.UDPConn, ctrlConn net.Conn, resolver apicommon.DNSResolver, allow udpDestinationFilter) error {
 	if resolver == nil {
 		resolver = &net.Resolver{}
 	}
@@ -242,7 +255,7 @@ func runUDPAssociateDatagramLoop(udpConn *net.UDPConn, ctrlConn net.Conn, resolv
 		}
 
 		if clientAddr == nil || sameUDPAddr(addr, clientAddr) {
-			dstAddr, payload, err := parseUDPAssociateDatagram(buf[:n], resolver)
+			dstAddr, payload, err := parseAllowedUDPAssociateDatagram(buf[:n], resolver, allow)
 			if err != nil {
 				log.Debugf("UDP datagram relay %v dropped invalid packet from %v: %v", udpConn.LocalAddr(), addr, err)
 				UDPAssociateErrors.Add(1)
@@ -384,9 +397,16 @@ func resolveSocks5UDPAddr(ctx context.Context, resolver apicommon.DNSResolver, a
 }
 
 func parseUDPAssociateDatagram(pkt []byte, resolver apicommon.DNSResolver) (*net.UDPAddr, []byte, error) {
+	return parseAllowedUDPAssociateDatagram(pkt, resolver, nil)
+}
+
+func parseAllowedUDPAssociateDatagram(pkt []byte, resolver apicommon.DNSResolver, allow udpDestinationFilter) (*net.UDPAddr, []byte, error) {
 	datagram, err := parseSocks5UDPDatagram(pkt)
 	if err != nil {
 		return nil, nil, err
+	}
+	if allow != nil && !allow(datagram.Addr) {
+		return nil, nil, fmt.Errorf("destination %v is rejected by egress rules", datagram.Addr)
 	}
 	dstAddr, err := resolveSocks5UDPAddr(context.Background(), resolver, datagram.Addr)
 	if err != nil {
